@@ -1,6 +1,6 @@
 (* Runner for property C09: runs a history (as RunC10), then presents the resulting envelope
    with each listed key (-1 = no key) to the library and to the command-line entry point.
-     c09 <fx> <base> ( op ... ) ( key ... )  ->  ( ( x<validate> x<lib verify> x<cli verify> ) ... )
+     c09 <fx> <base> ( op ... ) ( key ... )  ->  ( ( x<validate> x<lib verify> x<cli verify> ) ... ) ( x<op outcome> ... )
    Bulk and HTTP verification call the same function as the command line (internal/cli.Verify),
    so the model has one verdict for the three of them. *)
 From Coq Require Import ZArith List String Bool.
@@ -23,6 +23,7 @@ Definition run_c09 (args : list V) : list V :=
   | [VI f; VI b; VL ops; VL keys] =>
     let fx := dec_fx f in
     let e := final_env fx (start_env fx b) ops in
-    [VL (map (fun k => present fx e (vz k)) keys)]
+    [VL (map (fun k => present fx e (vz k)) keys);
+     VL (map (fun r => match r with VL (x :: _) => x | _ => VS [] end) (run_wire fx (start_env fx b) ops))]
   | _ => [verr "badargs"]
   end.
